@@ -40,6 +40,7 @@ class TModel(C01.Model):
             return now
         if period == 0:
             self.special += 1
+        now = now + (op.get("defer") or 0)       # made now, iterated later
         last = now
         for k in range(len(bodies) + 1):
             if kind == "interval":
@@ -138,6 +139,8 @@ def generate(rng, tier):
     if rng.random() < 0.1:
         return generate_twins(rng)
     start = rng.choice(STARTS)
+    if rng.random() < 0.04:
+        start = 2.0 ** 60       # a clock at which small (also negative) periods are absorbed
     actors = []
     serial = 0
     for i in range(rng.randint(1, 4)):
@@ -152,6 +155,8 @@ def generate(rng, tier):
             bodies = [rng.choice(BODIES + rel) for _ in range(rng.randint(0, 5))]
             op = {"op": "ticker", "kind": rng.choice(["interval", "interval", "delay"]),
                   "p": period, "bodies": bodies}
+            if period >= 0 and rng.random() < 0.12:
+                op["defer"] = rng.choice([0.25, 0.5, 1, 3])
             if rng.random() < 0.25:
                 serial += 1
                 op = {"op": "scope", "label": "G%d" % serial, "children": [],
